@@ -2,24 +2,61 @@
     1. erasing the counter gives back the decoders of model/Tx.v (so the C01 theorems apply);
     2. every decoding entry point answers POk or PErr (never the fuel artefact);
     3. bytes reported as consumed never exceed the bytes supplied, on success and on error;
-    4. allocation is bounded by [alloc_bound (length input)] = 32 * length + 16384. *)
+    4. allocation is bounded by [alloc_bound (length input)] = 32 * length + 16384;
+    5. no entry point panics on an input of at most [input_limit] = 2^42 bytes;
+    6. the bound in 5 is needed: a script that really is 2^46 bytes long makes readBytes panic in the model. *)
 From Coq Require Import List NArith ZArith Lia ZifyN ZifyNat ZifyBool Bool.
 From Coq Require Import Strings.Byte.
 From GoBT Require Import lib.Bytes lib.Parse lib.VarInt lib.Sha256 model.Tx proofs.TxProofs model.Alloc.
 Import ListNotations.
 Local Open Scope N_scope.
 
-(** * 1. Erasure *)
+(** * 1. Erasure.
+    [ert r p]: the allocation-counting result [r] is a panic, or it is [p] with a counter.  (Section 5
+    excludes the panic for inputs below [input_limit]; [erase_*] at the end of that section are the equations.) *)
+
+Definition ert {A} (r : ares A) (p : pres A) : Prop := r = APanic \/ erase r = p.
 
 Lemma erase_abind {A B} (p : ares A) (f : A -> bytes -> ares B) :
   erase (abind p f) = pbind (erase p) (fun a r => erase (f a r)).
 Proof.
-  destruct p as [a n rest al|n al|]; cbn; auto.
-  destruct (f a rest) as [b m r al2|m al2|]; cbn; auto.
+  destruct p as [a n rest al|n al| |]; cbn; auto.
+  destruct (f a rest) as [b m r al2|m al2| |]; cbn; auto.
 Qed.
 
-Lemma erase_acharge {A} x (r : ares A) : erase (acharge x r) = erase r.
-Proof. destruct r; reflexivity. Qed.
+Lemma ert_eq {A} (r : ares A) p : erase r = p -> ert r p.
+Proof. intros H; right; exact H. Qed.
+
+Lemma ert_conv {A} (r : ares A) p p' : ert r p -> p = p' -> ert r p'.
+Proof. intros H <-. exact H. Qed.
+
+Lemma ert_abind {A B} (p : ares A) pp (f : A -> bytes -> ares B) g :
+  ert p pp -> (forall a r, ert (f a r) (g a r)) -> ert (abind p f) (pbind pp g).
+Proof.
+  intros [->|<-] Hf; [left; reflexivity|].
+  destruct p as [a n rest al|n al| |]; cbn; try (right; reflexivity).
+  destruct (Hf a rest) as [E|E]; [rewrite E; left; reflexivity|].
+  rewrite <- E. destruct (f a rest); cbn; [right|right|right|left]; reflexivity.
+Qed.
+
+Lemma ert_request {A} x (r : ares A) p : ert r p -> ert (a_request x r) p.
+Proof. unfold a_request. destruct (alloc_limit <=? x); [left; reflexivity|auto]. Qed.
+Lemma ert_int {A} x (r : ares A) p : ert r p -> ert (a_int_of_u64 x r) p.
+Proof. unfold a_int_of_u64. destruct (two63 <=? x); [left; reflexivity|auto]. Qed.
+Lemma ert_slice {A} lo hi c (r : ares A) p : ert r p -> ert (a_slice lo hi c r) p.
+Proof. unfold a_slice. destruct (andb _ _); [auto|left; reflexivity]. Qed.
+Lemma ert_index {A} i l (r : ares A) p : ert r p -> ert (a_index i l r) p.
+Proof. unfold a_index. destruct (i <? l); [auto|left; reflexivity]. Qed.
+
+Lemma ert_acharge {A} x (r : ares A) p : ert r p -> ert (acharge x r) p.
+Proof.
+  intros H. unfold acharge. apply ert_request. destruct H as [->|<-]; [left; reflexivity|].
+  destruct r; [right|right|right|left]; reflexivity.
+Qed.
+
+Lemma ert_if {A} (c : bool) (a b : ares A) pa pb :
+  ert a pa -> ert b pb -> ert (if c then a else b) (if c then pa else pb).
+Proof. destruct c; auto. Qed.
 
 Lemma pbind_ext {A B} (p : pres A) (f g : A -> bytes -> pres B) :
   (forall a r, f a r = g a r) -> pbind p f = pbind p g.
@@ -28,15 +65,20 @@ Proof. intros H. destruct p; cbn; auto. rewrite H. reflexivity. Qed.
 Lemma erase_read_full k bs : erase (a_read_full k bs) = read_exact k bs.
 Proof. unfold a_read_full, read_exact. destruct (Nat.leb k (length bs)); reflexivity. Qed.
 
-Lemma erase_read_exact k bs : erase (a_read_exact k bs) = read_exact k bs.
-Proof. unfold a_read_exact. rewrite erase_acharge. apply erase_read_full. Qed.
+Lemma ert_read_full k bs : ert (a_read_full k bs) (read_exact k bs).
+Proof. apply ert_eq, erase_read_full. Qed.
 
-Lemma erase_read_varint bs : erase (a_read_varint bs) = read_varint bs.
+Lemma ert_read_exact k bs : ert (a_read_exact k bs) (read_exact k bs).
+Proof. unfold a_read_exact. apply ert_acharge, ert_read_full. Qed.
+
+Ltac ert_wrap :=
+  repeat first [apply ert_index | apply ert_acharge | apply ert_request | apply ert_int | apply ert_slice].
+
+Lemma ert_read_varint bs : ert (a_read_varint bs) (read_varint bs).
 Proof.
-  unfold a_read_varint, read_varint. rewrite erase_abind, erase_read_exact.
-  apply pbind_ext. intros b r.
-  repeat match goal with |- context [if ?c then _ else _] => destruct c end;
-    try (rewrite erase_abind, erase_read_exact; apply pbind_ext; intros; reflexivity); reflexivity.
+  unfold a_read_varint, read_varint. apply ert_abind; [apply ert_read_exact|]. intros b r. ert_wrap.
+  repeat (apply ert_if; [apply ert_abind; [apply ert_read_exact|]; intros; ert_wrap; apply ert_eq; reflexivity|]).
+  apply ert_eq; reflexivity.
 Qed.
 
 Lemma firstn_add {A} (a b : nat) (l : list A) : firstn (a + b) l = firstn a l ++ firstn b (skipn a l).
@@ -58,141 +100,136 @@ Proof. unfold lenN. intros H. rewrite firstn_length. lia. Qed.
 Lemma lenN_skipn (k : N) (bs : bytes) : lenN (skipn (N.to_nat k) bs) = lenN bs - k.
 Proof. unfold lenN. rewrite skipn_length. lia. Qed.
 
-Lemma erase_chunks fuel l acc bs : (length bs < fuel)%nat -> lenN acc < l ->
-  erase (a_read_chunks fuel l acc bs) =
-  if lenN bs <? l - lenN acc then PErr (lenN bs)
-  else POk (acc ++ firstn (N.to_nat (l - lenN acc)) bs) (l - lenN acc) (skipn (N.to_nat (l - lenN acc)) bs).
+(** what one pass of the loop is when it does not panic *)
+Lemma read_into_spec have chunk bs :
+  a_read_into have chunk bs = APanic \/
+  a_read_into have chunk bs =
+    if lenN bs <? chunk then AErr (lenN bs) (grow_cost have chunk + err_cost)
+    else AOk (firstn (N.to_nat chunk) bs) chunk (skipn (N.to_nat chunk) bs) (grow_cost have chunk + 0).
+Proof.
+  unfold a_read_into, a_int_of_u64, acharge, a_request, a_slice.
+  destruct (two63 <=? chunk); [left; reflexivity|].
+  destruct (alloc_limit <=? grow_cost have chunk); [left; reflexivity|].
+  destruct (andb (have <=? have + chunk) (have + chunk <=? have + chunk)); [|left; reflexivity].
+  destruct (lenN bs <? chunk); [|right; reflexivity].
+  destruct (andb (0 <=? have + lenN bs) (have + lenN bs <=? have + chunk)); [right|left]; reflexivity.
+Qed.
+
+Lemma ert_chunks fuel l acc bs : (length bs < fuel)%nat -> lenN acc < l ->
+  ert (a_read_chunks fuel l acc bs)
+  (if lenN bs <? l - lenN acc then PErr (lenN bs)
+   else POk (acc ++ firstn (N.to_nat (l - lenN acc)) bs) (l - lenN acc) (skipn (N.to_nat (l - lenN acc)) bs)).
 Proof.
   revert acc bs. induction fuel as [|f IH]; intros acc bs Hf Hacc; [lia|].
   cbn [a_read_chunks]. set (have := lenN acc) in *.
   set (chunk := N.min (l - have) (have + chunk_size)).
   assert (Hc1 : 1 <= chunk) by (unfold chunk, chunk_size; lia).
   assert (Hc2 : chunk <= l - have) by (unfold chunk; lia).
-  rewrite erase_abind. unfold a_read_into.
-  destruct (N.ltb_spec (lenN bs) chunk) as [Hs|Hs]; cbn [erase pbind].
-  - destruct (N.ltb_spec (lenN bs) (l - have)); [reflexivity|lia].
+  destruct (read_into_spec have chunk bs) as [E|E]; rewrite E; [left; reflexivity|]. clear E.
+  destruct (N.ltb_spec (lenN bs) chunk) as [Hs|Hs]; cbn [abind].
+  - right. cbn [erase]. destruct (N.ltb_spec (lenN bs) (l - have)); [reflexivity|lia].
   - set (x := firstn (N.to_nat chunk) bs). set (r := skipn (N.to_nat chunk) bs).
     assert (Hx : lenN x = chunk) by (apply lenN_firstn; exact Hs).
     assert (Hr : lenN r = lenN bs - chunk) by apply lenN_skipn.
     assert (Hacc' : lenN (acc ++ x) = have + chunk).
     { unfold lenN in *. rewrite app_length. fold have. lia. }
     destruct (N.ltb_spec (lenN (acc ++ x)) l) as [Hl|Hl].
-    + rewrite IH; [|unfold lenN in *; lia|exact Hl].
-      rewrite Hacc'.
-      replace (l - (have + chunk)) with (l - have - chunk) by lia.
+    + destruct (IH (acc ++ x) r) as [E2|E2]; [unfold lenN in *; lia|exact Hl|rewrite E2; left; reflexivity|].
+      right. rewrite Hacc' in E2.
+      replace (l - (have + chunk)) with (l - have - chunk) in E2 by lia.
       destruct (N.ltb_spec (lenN r) (l - have - chunk)) as [H1|H1];
-        destruct (N.ltb_spec (lenN bs) (l - have)) as [H2|H2]; try lia.
-      * f_equal. lia.
-      * f_equal; [| lia |].
+        destruct (N.ltb_spec (lenN bs) (l - have)) as [H2|H2]; try lia;
+        destruct (a_read_chunks f l (acc ++ x) r) as [b m r' al2|m al2| |]; cbn [erase] in E2 |- *; try discriminate.
+      * injection E2 as ->. f_equal. lia.
+      * injection E2 as -> -> ->. f_equal; [| lia |].
         -- rewrite <- app_assoc. f_equal.
            replace (N.to_nat (l - have)) with (N.to_nat chunk + N.to_nat (l - have - chunk))%nat by lia.
            apply eq_sym, firstn_add.
         -- unfold r. rewrite skipn_add. f_equal. lia.
-    + cbn [aret erase]. assert (chunk = l - have) as E by lia.
+    + right. cbn [aret erase]. assert (chunk = l - have) as E by lia.
       destruct (N.ltb_spec (lenN bs) (l - have)); [lia|].
       rewrite <- E. f_equal. lia.
 Qed.
 
-Lemma erase_read_bytes l bs :
-  erase (a_read_bytes l bs) = if lenN bs <? l then PErr (lenN bs) else read_exact (N.to_nat l) bs.
+Lemma ert_read_bytes l bs :
+  ert (a_read_bytes l bs) (if lenN bs <? l then PErr (lenN bs) else read_exact (N.to_nat l) bs).
 Proof.
   unfold a_read_bytes. destruct (N.leb_spec l chunk_size) as [H|H].
-  - rewrite erase_read_exact. unfold read_exact.
+  - apply ert_int. eapply ert_conv; [apply ert_read_exact|]. unfold read_exact.
     destruct (N.ltb_spec (lenN bs) l) as [H1|H1]; [|reflexivity].
     destruct (Nat.leb_spec (N.to_nat l) (length bs)); [unfold lenN in *; lia|reflexivity].
-  - rewrite erase_chunks; [|lia|unfold chunk_size in *; cbn; lia].
+  - eapply ert_conv; [apply ert_chunks; [lia|unfold chunk_size in *; cbn; lia]|].
     change (lenN []) with 0. rewrite N.sub_0_r.
     destruct (N.ltb_spec (lenN bs) l) as [H1|H1]; [reflexivity|].
     unfold read_exact. destruct (Nat.leb_spec (N.to_nat l) (length bs)); [|unfold lenN in *; lia].
     cbn [app]. f_equal. lia.
 Qed.
 
-Lemma erase_read_script bs : erase (a_read_script bs) = read_script_safe bs.
+Lemma ert_read_script bs : ert (a_read_script bs) (read_script_safe bs).
 Proof.
-  unfold a_read_script, read_script_safe. rewrite erase_abind, erase_read_varint.
-  apply pbind_ext. intros lm r. rewrite erase_abind, erase_read_bytes.
+  unfold a_read_script, read_script_safe. apply ert_abind; [apply ert_read_varint|]. intros lm r.
+  eapply ert_conv; [apply ert_abind; [apply ert_read_bytes|intros; apply ert_eq; reflexivity]|].
   destruct (lenN r <? fst lm); reflexivity.
 Qed.
 
-Lemma erase_read_input ext bs : erase (a_read_input ext bs) = read_input ext bs.
+Ltac ert_step :=
+  first [ apply ert_abind; [first [apply ert_read_exact | apply ert_read_full | apply ert_read_script | apply ert_read_varint]|]; intros
+        | apply ert_index | apply ert_acharge | apply ert_request
+        | apply ert_eq; reflexivity ].
+
+Ltac ert_case := match goal with |- ert (if ?c then _ else _) _ => destruct c end.
+
+Lemma ert_read_input ext bs : ert (a_read_input ext bs) (read_input ext bs).
 Proof.
-  unfold a_read_input, read_input.
-  rewrite erase_abind, erase_read_exact. apply pbind_ext; intros txidw r1.
-  rewrite erase_abind, erase_read_exact. apply pbind_ext; intros vout r2.
-  rewrite erase_abind, erase_read_script. apply pbind_ext; intros sm r3.
-  rewrite erase_abind, erase_read_exact. apply pbind_ext; intros sq r4.
-  rewrite erase_acharge. destruct ext; [|reflexivity].
-  rewrite erase_abind, erase_read_exact. apply pbind_ext; intros sats r5.
-  rewrite erase_abind, erase_read_script. apply pbind_ext; intros pm r6.
-  rewrite erase_acharge. reflexivity.
+  unfold a_read_input, read_input. do 4 ert_step. do 3 ert_step.
+  destruct ext; repeat ert_step.
 Qed.
 
-Lemma erase_read_output bs : erase (a_read_output bs) = read_output bs.
+Lemma ert_read_output bs : ert (a_read_output bs) (read_output bs).
+Proof. unfold a_read_output, read_output. repeat ert_step. Qed.
+
+Lemma ert_read_many {A} (ap : aparser (A * bool)) (p : parser (A * bool)) cost :
+  (forall b, ert (ap b) (p b)) ->
+  forall fuel count done bs, ert (a_read_many fuel cost ap count done bs) (read_many fuel p count bs).
 Proof.
-  unfold a_read_output, read_output.
-  rewrite erase_abind, erase_read_exact. apply pbind_ext; intros sats r1.
-  rewrite erase_abind, erase_read_script. apply pbind_ext; intros sm r2.
-  rewrite erase_acharge. reflexivity.
+  intros Hp. induction fuel as [|f IH]; intros count done bs; cbn [a_read_many read_many];
+    destruct (count =? 0); try (apply ert_eq; reflexivity).
+  apply ert_abind; [apply ert_acharge, Hp|]. intros xm r. apply ert_request.
+  apply ert_abind; [apply IH|]. intros. apply ert_eq; reflexivity.
 Qed.
 
-Lemma erase_read_many {A} (ap : aparser (A * bool)) (p : parser (A * bool)) cost :
-  (forall b, erase (ap b) = p b) ->
-  forall fuel count bs, erase (a_read_many fuel cost ap count bs) = read_many fuel p count bs.
-Proof.
-  intros Hp. induction fuel as [|f IH]; intros count bs; cbn [a_read_many read_many];
-    destruct (count =? 0); try reflexivity.
-  rewrite erase_abind, erase_acharge, Hp. apply pbind_ext; intros xm r.
-  rewrite erase_abind, IH. reflexivity.
-Qed.
-
-Lemma erase_read_tx_body fuel ver ext ic oc m0 bs :
-  erase (a_read_tx_body fuel ver ext ic oc m0 bs) = read_tx_body fuel ver ext ic oc m0 bs.
+Lemma ert_read_tx_body fuel ver ext ic oc m0 bs :
+  ert (a_read_tx_body fuel ver ext ic oc m0 bs) (read_tx_body fuel ver ext ic oc m0 bs).
 Proof.
   unfold a_read_tx_body, read_tx_body.
-  rewrite erase_abind, (erase_read_many _ (read_input ext)) by apply erase_read_input.
-  apply pbind_ext; intros ins ra.
-  rewrite erase_abind.
-  replace (erase (match oc with Some c => aret (c, true) | None => a_read_varint end ra))
-    with ((match oc with Some c => pret (c, true) | None => read_varint end) ra)
-    by (destruct oc; [reflexivity|symmetry; apply erase_read_varint]).
-  apply pbind_ext; intros ocv rb.
-  rewrite erase_abind, (erase_read_many _ read_output) by apply erase_read_output.
-  apply pbind_ext; intros outs rc.
-  rewrite erase_abind, erase_read_full. reflexivity.
+  apply ert_abind; [apply ert_read_many, ert_read_input|]. intros ins ra.
+  apply ert_abind; [destruct oc; [apply ert_eq; reflexivity|apply ert_read_varint]|]. intros ocv rb.
+  apply ert_abind; [apply ert_read_many, ert_read_output|]. intros outs rc.
+  repeat ert_step.
 Qed.
 
-Theorem erase_read_tx bs : erase (a_read_tx bs) = read_tx bs.
+Theorem ert_read_tx bs : ert (a_read_tx bs) (read_tx bs).
 Proof.
-  unfold a_read_tx, read_tx.
-  rewrite erase_abind, erase_read_exact. apply pbind_ext; intros ver r1.
-  rewrite erase_abind, erase_read_varint. apply pbind_ext; intros ic r2.
-  rewrite erase_acharge.
-  destruct (fst ic =? 0); [|apply erase_read_tx_body].
-  rewrite erase_abind, erase_read_varint. apply pbind_ext; intros oc r3.
-  destruct (fst oc =? 0); [|apply erase_read_tx_body].
-  rewrite erase_abind, erase_read_full. apply pbind_ext; intros lt r4.
-  destruct (be_dec lt =? 239); [|reflexivity].
-  rewrite erase_abind, erase_read_varint. apply pbind_ext; intros ic2 r5.
-  apply erase_read_tx_body.
+  unfold a_read_tx, read_tx. do 4 ert_step.
+  ert_case; [|apply ert_read_tx_body].
+  ert_step. ert_case; [|apply ert_read_tx_body].
+  do 2 ert_step. ert_case; [|ert_step].
+  ert_step. apply ert_read_tx_body.
 Qed.
 
-Theorem erase_tx_from_stream bs : erase (a_tx_from_stream bs) = read_tx bs.
-Proof. unfold a_tx_from_stream. rewrite erase_acharge. apply erase_read_tx. Qed.
+Theorem ert_tx_from_stream bs : ert (a_tx_from_stream bs) (read_tx bs).
+Proof. unfold a_tx_from_stream. apply ert_acharge, ert_read_tx. Qed.
 
-Theorem erase_read_txs bs : erase (a_read_txs bs) = read_txs bs.
+Theorem ert_read_txs bs : ert (a_read_txs bs) (read_txs bs).
 Proof.
-  unfold a_read_txs, read_txs.
-  rewrite erase_abind, erase_read_varint. apply pbind_ext; intros c r.
-  rewrite erase_abind.
-  rewrite (erase_read_many _ (fun b => pmap (fun p => (p, p_min p)) (read_tx b))).
-  - reflexivity.
-  - intros b. rewrite <- erase_read_tx. destruct (a_read_tx b); reflexivity.
+  unfold a_read_txs, read_txs. ert_step.
+  apply ert_abind; [|intros; apply ert_eq; reflexivity].
+  apply ert_read_many. intros b. destruct (ert_read_tx b) as [E|E]; [rewrite E; left; reflexivity|].
+  rewrite <- E. destruct (a_read_tx b); [right|right|right|left]; reflexivity.
 Qed.
 
-(** * 2. Totality: every entry point answers with a value or an error.
-    The decoders of the current code contain no partial operation: every slice expression and every
-    [make] is sized by a constant, by [min(l - have, have + 4096)] or by the bytes just read, so the
-    only way for the model not to answer is the fuel artefact of the count loops, excluded here. *)
+(** * 2. Termination: no entry point answers with the fuel artefact of the count loops
+    (panics - the partial operations of the decoders - are section 5). *)
 
 Definition answers {A} (r : pres A) : Prop :=
   match r with POk _ _ _ => True | PErr _ => True | PFuel => False end.
@@ -240,16 +277,20 @@ Proof.
   destruct (read_tx bs) as [p n r|?|]; try congruence. destruct (n =? lenN bs); discriminate.
 Qed.
 
-(** the same for the allocation-counting versions (they are the same functions: section 1) *)
-Lemma erase_fuel {A} (r : ares A) : r = AFuel <-> erase r = PFuel.
-Proof. destruct r; cbn; split; congruence. Qed.
+(** the same for the allocation-counting versions (section 1) *)
+Lemma ert_not_fuel {A} (r : ares A) p : ert r p -> p <> PFuel -> r <> AFuel.
+Proof. intros [->|<-] H E; [discriminate|]. apply H. rewrite E. reflexivity. Qed.
 Theorem a_decode_total bs :
   a_read_tx bs <> AFuel /\ a_tx_from_stream bs <> AFuel /\ a_read_txs bs <> AFuel /\
   a_read_input false bs <> AFuel /\ a_read_input true bs <> AFuel /\ a_read_output bs <> AFuel.
 Proof.
-  repeat split; intros H; apply erase_fuel in H; revert H;
-    rewrite ?erase_read_tx, ?erase_tx_from_stream, ?erase_read_txs, ?erase_read_input, ?erase_read_output;
-    first [apply read_tx_never_out_of_fuel | apply read_txs_never_out_of_fuel | apply read_input_nf | apply read_output_nf].
+  repeat split;
+    [eapply ert_not_fuel; [apply ert_read_tx|apply read_tx_never_out_of_fuel]
+    |eapply ert_not_fuel; [apply ert_tx_from_stream|apply read_tx_never_out_of_fuel]
+    |eapply ert_not_fuel; [apply ert_read_txs|apply read_txs_never_out_of_fuel]
+    |eapply ert_not_fuel; [apply ert_read_input|apply read_input_nf]
+    |eapply ert_not_fuel; [apply ert_read_input|apply read_input_nf]
+    |eapply ert_not_fuel; [apply ert_read_output|apply read_output_nf]].
 Qed.
 
 (** * 3. Bytes consumed never exceed bytes supplied, on success and on error *)
@@ -286,6 +327,7 @@ Definition Q {A} (D E : Z) (r : ares A) : Prop :=
   | AOk _ n _ al => Z.of_N al <= 32 * Z.of_N n + D
   | AErr n al => Z.of_N al <= 32 * Z.of_N n + E
   | AFuel => True
+  | APanic => True
   end.
 
 Lemma Q_weaken {A} D E D' E' (r : ares A) : Q D E r -> D <= D' -> E <= E' -> Q D' E' r.
@@ -294,12 +336,21 @@ Proof. destruct r; cbn; lia. Qed.
 Lemma Q_abind {A B} D1 E1 D2 E2 (p : ares A) (f : A -> bytes -> ares B) :
   Q D1 E1 p -> (forall a r, Q D2 E2 (f a r)) -> Q (D1 + D2) (Z.max E1 (D1 + E2)) (abind p f).
 Proof.
-  intros Hp Hf. destruct p as [a n rest al|n al|]; cbn [Q abind] in *; try lia.
-  specialize (Hf a rest). destruct (f a rest) as [b m r al2|m al2|]; cbn [Q abind] in *; lia.
+  intros Hp Hf. destruct p as [a n rest al|n al| |]; cbn [Q abind] in *; try lia.
+  specialize (Hf a rest). destruct (f a rest) as [b m r al2|m al2| |]; cbn [Q abind] in *; lia.
 Qed.
 
+Lemma Q_request {A} D E x (r : ares A) : Q D E r -> Q D E (a_request x r).
+Proof. unfold a_request. destruct (alloc_limit <=? x)%N; [intros; exact I|auto]. Qed.
+Lemma Q_int {A} D E x (r : ares A) : Q D E r -> Q D E (a_int_of_u64 x r).
+Proof. unfold a_int_of_u64. destruct (two63 <=? x)%N; [intros; exact I|auto]. Qed.
+Lemma Q_slice {A} D E lo hi c (r : ares A) : Q D E r -> Q D E (a_slice lo hi c r).
+Proof. unfold a_slice. destruct (andb _ _); [auto|intros; exact I]. Qed.
+Lemma Q_index {A} D E i l (r : ares A) : Q D E r -> Q D E (a_index i l r).
+Proof. unfold a_index. destruct (i <? l)%N; [auto|intros; exact I]. Qed.
+
 Lemma Q_acharge {A} D E x (r : ares A) : Q D E r -> Q (D + Z.of_N x) (E + Z.of_N x) (acharge x r).
-Proof. destruct r; cbn [Q acharge]; lia. Qed.
+Proof. intros H. unfold acharge. apply Q_request. destruct r; cbn [Q] in *; lia. Qed.
 
 Lemma Q_aret {A} (a : A) bs : Q 0 0 (aret a bs).
 Proof. cbn [Q aret]. lia. Qed.
@@ -334,8 +385,8 @@ Lemma Q_read_varint bs : Q (-14) 2066 (a_read_varint bs).
 Proof.
   unfold a_read_varint.
   eapply Q_weaken;
-    [eapply Q_abind; [apply Q_read_exact|]; intros b r;
-     repeat (eapply Q_if; [eapply Q_abind; [apply Q_read_exact|intros; apply Q_aret]|]); apply Q_aret
+    [eapply Q_abind; [apply Q_read_exact|]; intros b r; apply Q_index;
+     repeat (eapply Q_if; [eapply Q_abind; [apply Q_read_exact|intros; apply Q_index, Q_aret]|]); apply Q_aret
     | unfold err_cost; lia | unfold err_cost; lia].
 Qed.
 
@@ -345,6 +396,7 @@ Lemma chunks_bound fuel l acc bs : lenN acc < l ->
   | AOk _ n _ al => al <= 6 * n + 2 * lenN acc
   | AErr n al => al <= 8 * n + 4 * lenN acc + 8192 + err_cost
   | AFuel => True
+  | APanic => True
   end.
 Proof.
   revert acc bs. induction fuel as [|f IH]; intros acc bs Hacc; [exact I|].
@@ -353,7 +405,7 @@ Proof.
   assert (Hc1 : 1 <= chunk) by (unfold chunk, chunk_size; lia).
   assert (Hc2 : chunk <= l - have) by (unfold chunk; lia).
   assert (Hc3 : chunk <= have + 4096) by (unfold chunk, chunk_size; lia).
-  unfold a_read_into.
+  destruct (read_into_spec have chunk bs) as [E|E]; rewrite E; [exact I|]. clear E.
   destruct (N.ltb_spec (lenN bs) chunk) as [Hs|Hs]; cbn [abind].
   - unfold grow_cost. lia.
   - set (x := firstn (N.to_nat chunk) bs). set (r := skipn (N.to_nat chunk) bs).
@@ -364,7 +416,7 @@ Proof.
     + specialize (IH (acc ++ x) r Hl). rewrite Hacc' in IH.
       assert (chunk = have + chunk_size) as Hfull by (unfold chunk in *; lia).
       unfold chunk_size in Hfull.
-      destruct (a_read_chunks f l (acc ++ x) r) as [b m r' al2|m al2|]; auto; unfold grow_cost; lia.
+      destruct (a_read_chunks f l (acc ++ x) r) as [b m r' al2|m al2| |]; auto; unfold grow_cost; lia.
     + cbn [aret]. unfold grow_cost. lia.
 Qed.
 Local Open Scope Z_scope.
@@ -372,7 +424,7 @@ Local Open Scope Z_scope.
 Lemma Q_read_bytes l bs : Q 0 10256 (a_read_bytes l bs).
 Proof.
   unfold a_read_bytes. destruct (N.leb_spec l chunk_size) as [H|H].
-  - eapply Q_weaken; [apply Q_read_exact_any| |]; unfold err_cost, chunk_size in *; lia.
+  - apply Q_int. eapply Q_weaken; [apply Q_read_exact_any| |]; unfold err_cost, chunk_size in *; lia.
   - pose proof (chunks_bound (S (length bs)) l [] bs) as K.
     change (lenN []) with 0%N in K. specialize (K ltac:(unfold chunk_size in H; lia)).
     destruct (a_read_chunks (S (length bs)) l [] bs); cbn [Q]; unfold err_cost in *; lia.
@@ -389,6 +441,7 @@ Qed.
 Ltac q_step :=
   first [ eapply Q_abind; [first [apply Q_read_exact | apply Q_read_full | apply Q_read_script | apply Q_read_varint]|]; intros
         | apply Q_acharge
+        | apply Q_index
         | apply Q_aret ].
 
 (** one input: at most 32 bytes per byte read, with at least 1102 bytes to spare on success *)
@@ -396,8 +449,8 @@ Lemma Q_read_input ext bs : Q (-1102) 10256 (a_read_input ext bs).
 Proof.
   unfold a_read_input.
   eapply Q_weaken.
-  - do 4 q_step. q_step. eapply Q_if.
-    + do 2 q_step. q_step. q_step.
+  - do 4 q_step. do 3 q_step. eapply Q_if.
+    + do 2 q_step. do 3 q_step.
     + q_step.
   - unfold script_hdr, err_cost. lia.
   - unfold script_hdr, err_cost. lia.
@@ -407,19 +460,19 @@ Lemma Q_read_output bs : Q (-206) 10256 (a_read_output bs).
 Proof.
   unfold a_read_output.
   eapply Q_weaken.
-  - do 2 q_step. q_step. q_step.
+  - do 2 q_step. do 3 q_step.
   - unfold script_hdr, err_cost. lia.
   - unfold script_hdr, err_cost. lia.
 Qed.
 
 Lemma Q_read_many {A} (p : aparser (A * bool)) Di Ei cost :
   (forall b, Q Di Ei (p b)) -> Di + Z.of_N cost <= 0 -> 0 <= Ei + Z.of_N cost ->
-  forall fuel count bs, Q 0 (Ei + Z.of_N cost) (a_read_many fuel cost p count bs).
+  forall fuel count done bs, Q 0 (Ei + Z.of_N cost) (a_read_many fuel cost p count done bs).
 Proof.
-  intros Hp HD HE. induction fuel as [|f IH]; intros count bs; cbn [a_read_many];
+  intros Hp HD HE. induction fuel as [|f IH]; intros count done bs; cbn [a_read_many];
     destruct (count =? 0)%N; try (eapply Q_weaken; [apply Q_aret|lia|lia]); [exact I|].
   eapply Q_weaken.
-  - eapply Q_abind; [apply Q_acharge, Hp|]. intros xm r.
+  - eapply Q_abind; [apply Q_acharge, Hp|]. intros xm r. apply Q_request.
     eapply Q_abind; [apply IH|]. intros. apply Q_aret.
   - lia.
   - lia.
@@ -436,7 +489,7 @@ Proof.
                                   |eapply Q_weaken; [apply Q_read_varint|lia|lia]]|]. intros ocv rb.
     eapply Q_abind; [apply (Q_read_many a_read_output (-206) 10256 (output_struct + append_cost));
                      [intros; apply Q_read_output|cbn; lia|cbn; lia]|]. intros outs rc.
-    q_step. q_step.
+    q_step. q_step. q_step.
   - cbn. lia.
   - cbn. lia.
 Qed.
@@ -445,10 +498,10 @@ Lemma Q_read_tx bs : Q (-222) 10500 (a_read_tx bs).
 Proof.
   unfold a_read_tx.
   eapply Q_weaken.
-  - do 2 q_step. q_step.
+  - q_step. q_step. q_step. q_step.
     eapply Q_if; [|apply Q_read_tx_body].
     q_step. eapply Q_if; [|apply Q_read_tx_body].
-    q_step. eapply Q_if; [|q_step].
+    q_step. q_step. eapply Q_if; [|q_step].
     q_step. apply Q_read_tx_body.
   - cbn. lia.
   - cbn. lia.
@@ -474,31 +527,33 @@ Qed.
 (** ** the statements: allocation against the length of the input *)
 Local Open Scope N_scope.
 
-Lemma Q_alloc_bound {A} D E (r : ares A) bs :
-  Q D E r -> consumed_le bs (erase r) -> (D <= 16384)%Z -> (E <= 16384)%Z -> alloc_of r <= alloc_bound (lenN bs).
+Lemma Q_alloc_bound {A} D E (r : ares A) p bs :
+  Q D E r -> ert r p -> consumed_le bs p -> (D <= 16384)%Z -> (E <= 16384)%Z -> alloc_of r <= alloc_bound (lenN bs).
 Proof.
-  unfold alloc_bound, alloc_c, alloc_k. destruct r; cbn [Q alloc_of erase consumed_le]; lia.
+  unfold alloc_bound, alloc_c, alloc_k. intros HQ [->|<-]; [cbn; lia|].
+  destruct r; cbn [Q alloc_of erase consumed_le] in *; lia.
 Qed.
 
+(** (a panic counts as no allocation here: section 5 shows there is none below [input_limit]) *)
 Theorem alloc_linear_tx bs : alloc_of (a_read_tx bs) <= alloc_bound (lenN bs).
 Proof.
-  eapply Q_alloc_bound; [apply Q_read_tx|rewrite erase_read_tx; apply consumed_le_tx|lia|lia].
+  eapply Q_alloc_bound; [apply Q_read_tx|apply ert_read_tx|apply consumed_le_tx|lia|lia].
 Qed.
 Theorem alloc_linear_stream bs : alloc_of (a_tx_from_stream bs) <= alloc_bound (lenN bs).
 Proof.
-  eapply Q_alloc_bound; [apply Q_tx_from_stream|rewrite erase_tx_from_stream; apply consumed_le_tx|lia|lia].
+  eapply Q_alloc_bound; [apply Q_tx_from_stream|apply ert_tx_from_stream|apply consumed_le_tx|lia|lia].
 Qed.
 Theorem alloc_linear_txs bs : alloc_of (a_read_txs bs) <= alloc_bound (lenN bs).
 Proof.
-  eapply Q_alloc_bound; [apply Q_read_txs|rewrite erase_read_txs; apply consumed_le_txs|lia|lia].
+  eapply Q_alloc_bound; [apply Q_read_txs|apply ert_read_txs|apply consumed_le_txs|lia|lia].
 Qed.
 Theorem alloc_linear_input ext bs : alloc_of (a_read_input ext bs) <= alloc_bound (lenN bs).
 Proof.
-  eapply Q_alloc_bound; [apply Q_read_input|rewrite erase_read_input; apply consumed_le_input|lia|lia].
+  eapply Q_alloc_bound; [apply Q_read_input|apply ert_read_input|apply consumed_le_input|lia|lia].
 Qed.
 Theorem alloc_linear_output bs : alloc_of (a_read_output bs) <= alloc_bound (lenN bs).
 Proof.
-  eapply Q_alloc_bound; [apply Q_read_output|rewrite erase_read_output; apply consumed_le_output|lia|lia].
+  eapply Q_alloc_bound; [apply Q_read_output|apply ert_read_output|apply consumed_le_output|lia|lia].
 Qed.
 
 (** in particular no allocation request comes near Go's maxAlloc (2^48 on linux/amd64) for any
@@ -508,4 +563,311 @@ Theorem alloc_below_maxalloc bs : lenN bs < 2 ^ 42 ->
 Proof.
   intros H. pose proof (alloc_linear_tx bs). pose proof (alloc_linear_txs bs).
   unfold alloc_bound, alloc_c, alloc_k in *. lia.
+Qed.
+
+(** * 5. No panic: on an input of at most [input_limit] = 2^42 bytes no entry point answers [APanic],
+    whatever the length and count fields claim.
+    [safeP P d bs r]: [r] is not a panic, and when it is a value, the value satisfies [P] and the remaining
+    input is at least [d] bytes shorter than [bs] (what the loops need: a script chunk is sized by the bytes
+    already read, the slice of pointers by the items already read, and each item is at least a byte). *)
+
+Definition safeP {A} (P : A -> Prop) (d : nat) (bs : bytes) (r : ares A) : Prop :=
+  match r with
+  | APanic => False
+  | AOk a _ rest _ => P a /\ (length rest + d <= length bs)%nat
+  | _ => True
+  end.
+Notation safe := (safeP (fun _ => True)).
+
+Lemma alloc_limit_val : alloc_limit = 140737488355328. Proof. reflexivity. Qed.
+Lemma two63_val : two63 = 9223372036854775808. Proof. reflexivity. Qed.
+Lemma input_limit_val : input_limit = 4398046511104. Proof. reflexivity. Qed.
+
+Lemma safeP_abind {A B} (P : A -> Prop) (R : B -> Prop) d1 d bs (p : ares A) (f : A -> bytes -> ares B) :
+  safeP P d1 bs p ->
+  (forall a rest, P a -> (length rest + d1 <= length bs)%nat -> safeP R 0 rest (f a rest)) ->
+  (d <= d1)%nat -> safeP R d bs (abind p f).
+Proof.
+  intros Hp Hf Hd. destruct p as [a n rest al|n al| |]; cbn in *; auto. destruct Hp as [Pa Hl].
+  specialize (Hf a rest Pa Hl). destruct (f a rest); cbn in *; auto. destruct Hf; split; auto; lia.
+Qed.
+
+Lemma safeP_weaken {A} (P R : A -> Prop) d d' bs (r : ares A) :
+  safeP P d bs r -> (forall a, P a -> R a) -> (d' <= d)%nat -> safeP R d' bs r.
+Proof. destruct r; cbn; auto. intros [Pa Hl] H Hd; split; auto; lia. Qed.
+
+Lemma safe_request {A} (P : A -> Prop) d bs x (r : ares A) :
+  x < alloc_limit -> safeP P d bs r -> safeP P d bs (a_request x r).
+Proof. intros H. unfold a_request. destruct (N.leb_spec alloc_limit x); [lia|auto]. Qed.
+Lemma safe_int {A} (P : A -> Prop) d bs x (r : ares A) :
+  x < two63 -> safeP P d bs r -> safeP P d bs (a_int_of_u64 x r).
+Proof. intros H. unfold a_int_of_u64. destruct (N.leb_spec two63 x); [lia|auto]. Qed.
+Lemma safe_slice {A} (P : A -> Prop) d bs lo hi c (r : ares A) :
+  lo <= hi -> hi <= c -> safeP P d bs r -> safeP P d bs (a_slice lo hi c r).
+Proof.
+  intros H1 H2. unfold a_slice. destruct (N.leb_spec lo hi); [|lia]. destruct (N.leb_spec hi c); [|lia]. auto.
+Qed.
+Lemma safe_index {A} (P : A -> Prop) d bs i l (r : ares A) :
+  i < l -> safeP P d bs r -> safeP P d bs (a_index i l r).
+Proof. intros H. unfold a_index. destruct (N.ltb_spec i l); [auto|lia]. Qed.
+Lemma safe_acharge {A} (P : A -> Prop) d bs x (r : ares A) :
+  x < alloc_limit -> safeP P d bs r -> safeP P d bs (acharge x r).
+Proof. intros H Hr. unfold acharge. apply safe_request; [exact H|]. destruct r; cbn in *; auto. Qed.
+Lemma safe_aret {A} (P : A -> Prop) (a : A) bs : P a -> safeP P 0 bs (aret a bs).
+Proof. intros H. cbn. split; [exact H|lia]. Qed.
+
+Lemma safe_read_full k bs : safeP (fun x => length x = k) k bs (a_read_full k bs).
+Proof.
+  unfold a_read_full. destruct (Nat.leb_spec k (length bs)); cbn; [|exact I].
+  rewrite firstn_length, skipn_length. lia.
+Qed.
+
+Lemma msize_small k : k <= chunk_size -> msize k < alloc_limit.
+Proof. rewrite alloc_limit_val. unfold msize, chunk_size. destruct (k =? 0); lia. Qed.
+
+Lemma safe_read_exact k bs : msize (N.of_nat k) < alloc_limit ->
+  safeP (fun x => length x = k) k bs (a_read_exact k bs).
+Proof. intros H. unfold a_read_exact. apply safe_acharge; [exact H|apply safe_read_full]. Qed.
+
+Ltac lenlia := unfold lenN in *; rewrite ?input_limit_val in *; lia.
+
+Lemma safe_read_varint bs : safe 1 bs (a_read_varint bs).
+Proof.
+  unfold a_read_varint.
+  eapply safeP_abind; [apply safe_read_exact; reflexivity| |lia]. intros b r Hb Hl.
+  apply safe_index; [lenlia|].
+  repeat match goal with |- safeP _ _ _ (if ?c then _ else _) => destruct c end;
+    try (eapply safeP_abind; [apply safe_read_exact; reflexivity| |apply Nat.le_0_l]; intros x r2 Hx Hl2;
+         apply safe_index; [lenlia|apply safe_aret; exact I]);
+    apply safe_aret; exact I.
+Qed.
+
+(** one pass of the readBytes loop when its sizes are in range *)
+Lemma read_into_ok have chunk bs : chunk < two63 -> grow_cost have chunk < alloc_limit ->
+  a_read_into have chunk bs =
+    if lenN bs <? chunk then AErr (lenN bs) (grow_cost have chunk + err_cost)
+    else AOk (firstn (N.to_nat chunk) bs) chunk (skipn (N.to_nat chunk) bs) (grow_cost have chunk + 0).
+Proof.
+  intros H1 H2. unfold a_read_into, a_int_of_u64, acharge, a_request, a_slice.
+  destruct (N.leb_spec two63 chunk); [lia|]. destruct (N.leb_spec alloc_limit (grow_cost have chunk)); [lia|].
+  destruct (N.leb_spec have (have + chunk)); [|lia]. destruct (N.leb_spec (have + chunk) (have + chunk)); [|lia].
+  cbn [andb]. destruct (N.ltb_spec (lenN bs) chunk); [|reflexivity].
+  destruct (N.leb_spec 0 (have + lenN bs)); [|lia].
+  destruct (N.leb_spec (have + lenN bs) (have + chunk)); [|lia]. reflexivity.
+Qed.
+
+Lemma safe_chunks fuel l acc bs : lenN acc + lenN bs <= input_limit -> lenN acc < l ->
+  safe 0 bs (a_read_chunks fuel l acc bs).
+Proof.
+  revert acc bs. induction fuel as [|f IH]; intros acc bs HL Hacc; [exact I|].
+  cbn [a_read_chunks]. set (have := lenN acc) in *.
+  set (chunk := N.min (l - have) (have + chunk_size)).
+  assert (Hc3 : chunk <= have + 4096) by (unfold chunk, chunk_size; lia).
+  rewrite read_into_ok;
+    [|rewrite two63_val; rewrite input_limit_val in HL; lia
+     |rewrite alloc_limit_val; unfold grow_cost; rewrite input_limit_val in HL; lia].
+  destruct (N.ltb_spec (lenN bs) chunk) as [Hs|Hs]; cbn [abind]; [exact I|].
+  set (x := firstn (N.to_nat chunk) bs). set (r := skipn (N.to_nat chunk) bs).
+  assert (Hx : lenN x = chunk) by (apply lenN_firstn; exact Hs).
+  assert (Hr : lenN r = lenN bs - chunk) by apply lenN_skipn.
+  assert (Hacc' : lenN (acc ++ x) = have + chunk).
+  { unfold lenN in *. rewrite app_length. fold have. lia. }
+  destruct (N.ltb_spec (lenN (acc ++ x)) l) as [Hl|Hl].
+  - specialize (IH (acc ++ x) r ltac:(lia) Hl).
+    destruct (a_read_chunks f l (acc ++ x) r); cbn in *; auto. destruct IH as [_ IH]. split; [exact I|]. lenlia.
+  - cbn. split; [exact I|]. lenlia.
+Qed.
+
+Lemma safe_read_bytes l bs : lenN bs <= input_limit -> safe 0 bs (a_read_bytes l bs).
+Proof.
+  intros HL. unfold a_read_bytes. destruct (N.leb_spec l chunk_size) as [H|H].
+  - apply safe_int; [rewrite two63_val; unfold chunk_size in H; lia|].
+    eapply safeP_weaken; [apply safe_read_exact; apply msize_small; lia|auto|lia].
+  - apply safe_chunks; [change (lenN []) with 0; lia|change (lenN []) with 0; unfold chunk_size in H; lia].
+Qed.
+
+Lemma safe_read_script bs : lenN bs <= input_limit -> safe 1 bs (a_read_script bs).
+Proof.
+  intros HL. unfold a_read_script.
+  eapply safeP_abind; [apply safe_read_varint| |lia]. intros lm r _ Hl.
+  eapply safeP_abind; [apply safe_read_bytes; lenlia| |lia]. intros s r2 _ Hl2. apply safe_aret; exact I.
+Qed.
+
+Ltac sf_step :=
+  first [ eapply safeP_abind;
+            [first [apply safe_read_exact; reflexivity | apply safe_read_full
+                   | apply safe_read_script; lenlia | apply safe_read_varint]
+            |intros ? ? ? ?|lia]
+        | apply safe_acharge; [reflexivity|]
+        | apply safe_index; [lenlia|]
+        | apply safe_aret; exact I ].
+
+Ltac sf_case := match goal with |- safeP _ _ _ (if ?c then _ else _) => destruct c end.
+
+Lemma safe_read_input ext bs : lenN bs <= input_limit -> safe 1 bs (a_read_input ext bs).
+Proof.
+  intros HL. unfold a_read_input. do 4 sf_step. do 3 sf_step. destruct ext; repeat sf_step.
+Qed.
+
+Lemma safe_read_output bs : lenN bs <= input_limit -> safe 1 bs (a_read_output bs).
+Proof. intros HL. unfold a_read_output. repeat sf_step. Qed.
+
+Lemma safe_read_many {A} (p : aparser (A * bool)) cost :
+  (forall b, lenN b <= input_limit -> safe 1 b (p b)) -> cost < alloc_limit ->
+  forall fuel count done bs, done + lenN bs <= input_limit -> safe 0 bs (a_read_many fuel cost p count done bs).
+Proof.
+  intros Hp Hc. induction fuel as [|f IH]; intros count done bs HL; cbn [a_read_many];
+    destruct (count =? 0); try (apply safe_aret; exact I); [exact I|].
+  eapply safeP_abind; [apply safe_acharge; [exact Hc|apply Hp; lia]| |lia]. intros xm r _ Hl.
+  apply safe_request; [rewrite alloc_limit_val; unfold slice_grow; rewrite input_limit_val in HL; lia|].
+  eapply safeP_abind; [apply IH; lenlia| |lia]. intros. apply safe_aret; exact I.
+Qed.
+
+Lemma safe_read_tx_body fuel ver ext ic oc m0 bs : lenN bs <= input_limit ->
+  safe 0 bs (a_read_tx_body fuel ver ext ic oc m0 bs).
+Proof.
+  intros HL. unfold a_read_tx_body.
+  eapply safeP_abind; [apply (safe_read_many (a_read_input ext));
+                       [intros; apply safe_read_input; assumption|reflexivity|lia]| |lia]. intros ins ra _ Hl1.
+  eapply safeP_abind with (d1 := 0%nat) (P := fun _ => True);
+    [destruct oc; [apply safe_aret; exact I|eapply safeP_weaken; [apply safe_read_varint|auto|lia]]| |lia].
+  intros ocv rb _ Hl2.
+  eapply safeP_abind; [apply (safe_read_many a_read_output);
+                       [intros; apply safe_read_output; assumption|reflexivity|lenlia]| |lia]. intros outs rc _ Hl3.
+  repeat sf_step.
+Qed.
+
+Lemma safe_read_tx bs : lenN bs <= input_limit -> safe 1 bs (a_read_tx bs).
+Proof.
+  intros HL. unfold a_read_tx. do 4 sf_step.
+  sf_case; [|apply safe_read_tx_body; lenlia].
+  sf_step. sf_case; [|apply safe_read_tx_body; lenlia].
+  do 2 sf_step. sf_case; [|sf_step].
+  sf_step. apply safe_read_tx_body; lenlia.
+Qed.
+
+Lemma safe_tx_from_stream bs : lenN bs <= input_limit -> safe 1 bs (a_tx_from_stream bs).
+Proof. intros HL. unfold a_tx_from_stream. apply safe_acharge; [reflexivity|apply safe_read_tx; exact HL]. Qed.
+
+Lemma safe_read_txs bs : lenN bs <= input_limit -> safe 1 bs (a_read_txs bs).
+Proof.
+  intros HL. unfold a_read_txs. sf_step.
+  eapply safeP_abind; [apply safe_read_many; [|reflexivity|lenlia]| |lia].
+  - intros b Hb. pose proof (safe_read_tx b Hb) as K. destruct (a_read_tx b); cbn in *; auto.
+  - intros. apply safe_aret; exact I.
+Qed.
+
+Lemma safe_not_panic {A} (P : A -> Prop) d bs (r : ares A) : safeP P d bs r -> r <> APanic.
+Proof. intros H E. rewrite E in H. exact H. Qed.
+
+Theorem no_panic_tx bs : lenN bs <= input_limit -> a_read_tx bs <> APanic.
+Proof. intros H. eapply safe_not_panic, safe_read_tx, H. Qed.
+Theorem no_panic_stream bs : lenN bs <= input_limit -> a_tx_from_stream bs <> APanic.
+Proof. intros H. eapply safe_not_panic, safe_tx_from_stream, H. Qed.
+Theorem no_panic_txs bs : lenN bs <= input_limit -> a_read_txs bs <> APanic.
+Proof. intros H. eapply safe_not_panic, safe_read_txs, H. Qed.
+Theorem no_panic_input ext bs : lenN bs <= input_limit -> a_read_input ext bs <> APanic.
+Proof. intros H. eapply safe_not_panic, safe_read_input, H. Qed.
+Theorem no_panic_output bs : lenN bs <= input_limit -> a_read_output bs <> APanic.
+Proof. intros H. eapply safe_not_panic, safe_read_output, H. Qed.
+
+(** the pieces, for every input (no hypothesis): the fixed-width reads and the varint never panic *)
+Theorem no_panic_varint bs : a_read_varint bs <> APanic.
+Proof. eapply safe_not_panic, safe_read_varint. Qed.
+
+(** ** with the panic excluded, the erasure statements of section 1 are equations *)
+Lemma ert_erase {A} (r : ares A) p : ert r p -> r <> APanic -> erase r = p.
+Proof. intros [E|E] H; [contradiction|exact E]. Qed.
+
+Theorem erase_read_tx bs : lenN bs <= input_limit -> erase (a_read_tx bs) = read_tx bs.
+Proof. intros H. apply ert_erase; [apply ert_read_tx|apply no_panic_tx, H]. Qed.
+Theorem erase_tx_from_stream bs : lenN bs <= input_limit -> erase (a_tx_from_stream bs) = read_tx bs.
+Proof. intros H. apply ert_erase; [apply ert_tx_from_stream|apply no_panic_stream, H]. Qed.
+Theorem erase_read_txs bs : lenN bs <= input_limit -> erase (a_read_txs bs) = read_txs bs.
+Proof. intros H. apply ert_erase; [apply ert_read_txs|apply no_panic_txs, H]. Qed.
+Theorem erase_read_input ext bs : lenN bs <= input_limit -> erase (a_read_input ext bs) = read_input ext bs.
+Proof. intros H. apply ert_erase; [apply ert_read_input|apply no_panic_input, H]. Qed.
+Theorem erase_read_output bs : lenN bs <= input_limit -> erase (a_read_output bs) = read_output bs.
+Proof. intros H. apply ert_erase; [apply ert_read_output|apply no_panic_output, H]. Qed.
+
+(** every entry point answers with a value or an error - not a panic, not the fuel artefact *)
+Definition a_answers {A} (r : ares A) : Prop :=
+  match r with AOk _ _ _ _ => True | AErr _ _ => True | AFuel => False | APanic => False end.
+
+Lemma a_answers_intro {A} (r : ares A) : r <> APanic -> r <> AFuel -> a_answers r.
+Proof. destruct r; cbn; auto. Qed.
+
+Theorem a_answers_all bs : lenN bs <= input_limit ->
+  a_answers (a_read_tx bs) /\ a_answers (a_tx_from_stream bs) /\ a_answers (a_read_txs bs) /\
+  a_answers (a_read_input false bs) /\ a_answers (a_read_input true bs) /\ a_answers (a_read_output bs).
+Proof.
+  intros H. destruct (a_decode_total bs) as (F1 & F2 & F3 & F4 & F5 & F6).
+  repeat split; apply a_answers_intro; auto using no_panic_tx, no_panic_stream, no_panic_txs, no_panic_input, no_panic_output.
+Qed.
+
+(** * 6. The bound of section 5 is needed: a script that is really there and is 2^46 bytes long or more
+    makes readBytes panic in the model (the chunk loop asks for twice what it has read, plus 4096). *)
+
+Lemma chunks_panic fuel l acc bs : (length bs < fuel)%nat -> lenN acc < l -> l - lenN acc <= lenN bs ->
+  2 ^ 46 <= l -> l < two63 -> a_read_chunks fuel l acc bs = APanic.
+Proof.
+  change (2 ^ 46) with 70368744177664. rewrite two63_val.
+  revert acc bs. induction fuel as [|f IH]; intros acc bs Hf Hacc Hd Hl1 Hl2; [lia|].
+  cbn [a_read_chunks]. set (have := lenN acc) in *.
+  set (chunk := N.min (l - have) (have + chunk_size)).
+  assert (Hc1 : 1 <= chunk) by (unfold chunk, chunk_size; lia).
+  assert (Hc2 : chunk <= l - have) by (unfold chunk; lia).
+  destruct (N.leb_spec alloc_limit (grow_cost have chunk)) as [Hg|Hg].
+  - assert (E : a_read_into have chunk bs = APanic).
+    { unfold a_read_into, a_int_of_u64, acharge, a_request. destruct (two63 <=? chunk); [reflexivity|].
+      destruct (N.leb_spec alloc_limit (grow_cost have chunk)); [reflexivity|lia]. }
+    rewrite E. reflexivity.
+  - rewrite read_into_ok; [|rewrite two63_val; lia|exact Hg].
+    destruct (N.ltb_spec (lenN bs) chunk) as [Hs|Hs]; [lia|]. cbn [abind].
+    set (x := firstn (N.to_nat chunk) bs). set (r := skipn (N.to_nat chunk) bs).
+    assert (Hx : lenN x = chunk) by (apply lenN_firstn; exact Hs).
+    assert (Hr : lenN r = lenN bs - chunk) by apply lenN_skipn.
+    assert (Hacc' : lenN (acc ++ x) = have + chunk).
+    { unfold lenN in *. rewrite app_length. fold have. lia. }
+    destruct (N.ltb_spec (lenN (acc ++ x)) l) as [Hl|Hl].
+    + rewrite IH; [reflexivity|unfold lenN in *; lia|exact Hl|lia|lia|lia].
+    + exfalso. rewrite alloc_limit_val in Hg. unfold grow_cost in Hg. lia.
+Qed.
+
+Theorem huge_script_panics l bs : 2 ^ 46 <= l -> l < two63 -> l <= lenN bs -> a_read_bytes l bs = APanic.
+Proof.
+  intros H1 H2 H3. unfold a_read_bytes.
+  assert (H1' : 70368744177664 <= l) by exact H1.
+  destruct (N.leb_spec l chunk_size) as [H|H]; [unfold chunk_size in H; lia|].
+  apply chunks_panic; [lia|change (lenN []) with 0; lia|change (lenN []) with 0; lia|exact H1|exact H2].
+Qed.
+
+Lemma a_read_exact_app k pre rest : length pre = k -> msize (N.of_nat k) < alloc_limit ->
+  a_read_exact k (pre ++ rest) = AOk pre (N.of_nat k) rest (msize (N.of_nat k) + 0).
+Proof.
+  intros Hk Hm. unfold a_read_exact, a_read_full, acharge, a_request.
+  destruct (N.leb_spec alloc_limit (msize (N.of_nat k))); [lia|].
+  rewrite app_length. destruct (Nat.leb_spec k (length pre + length rest)); [|lia].
+  subst k. rewrite firstn_app, Nat.sub_diag, firstn_all, skipn_app, Nat.sub_diag, skipn_all. cbn [firstn skipn].
+  rewrite app_nil_r. reflexivity.
+Qed.
+
+(** an output whose script length field says 2^46 and whose script IS 2^46 bytes long: Output.ReadFrom
+    panics in the model, on an input of 2^46 + 17 bytes *)
+Theorem huge_output_panics sats data : length sats = 8%nat -> lenN data = 2 ^ 46 ->
+  a_read_output (sats ++ [xff] ++ le_enc 8 (2 ^ 46) ++ data) = APanic.
+Proof.
+  intros Hs Hd. unfold a_read_output.
+  rewrite (a_read_exact_app 8 sats) by (auto; reflexivity). cbn [abind].
+  assert (E : a_read_script ([xff] ++ le_enc 8 (2 ^ 46) ++ data) = APanic).
+  { unfold a_read_script, a_read_varint.
+    rewrite (a_read_exact_app 1 [xff]) by (auto; reflexivity). cbn [abind].
+    change (a_index 0 (lenN [xff])) with (fun r : ares (N * bool) => r). cbv beta.
+    change (match [xff] with c :: _ => b2n c | [] => 0 end =? 255) with true. cbv iota.
+    rewrite (a_read_exact_app 8 (le_enc 8 (2 ^ 46))) by (auto; reflexivity). cbn [abind].
+    change (lenN (le_enc 8 (2 ^ 46))) with 8. change (a_index 7 8) with (fun r : ares (N * bool) => r). cbv beta.
+    cbn [aret fst snd]. rewrite le_dec_enc by reflexivity.
+    change (b2n xff =? 255) with true. cbv iota. cbn [abind fst].
+    rewrite huge_script_panics; [reflexivity|lia|reflexivity|lia]. }
+  rewrite E. reflexivity.
 Qed.
